@@ -312,6 +312,34 @@ impl S2mClient {
     Ok(Self { client })
   }
 
+  /// Verification hook: like [`S2mClient::new`], but connections are established by the given dialer
+  /// (lets the harness in /verif put a scripted peer on the other end of the real client).
+  #[cfg(narwhal_verif)]
+  pub fn new_with_dialer(config: S2mClientConfig, dialer: Arc<dyn Dialer<Stream = Stream>>) -> anyhow::Result<Self> {
+    let shared_secret: Option<StringAtom> =
+      { if !config.shared_secret.is_empty() { Some(config.shared_secret.as_str().into()) } else { None } };
+
+    let handshaker = S2mHandshaker { shared_secret, heartbeat_interval: config.heartbeat_interval };
+
+    let client = narwhal_common::client::Client::new(
+      "s2m:client",
+      narwhal_common::client::Config {
+        max_idle_connections: config.max_idle_connections,
+        heartbeat_interval: config.heartbeat_interval,
+        connect_timeout: config.connect_timeout,
+        timeout: config.timeout,
+        payload_read_timeout: config.payload_read_timeout,
+        backoff_initial_delay: config.backoff_initial_delay,
+        backoff_max_delay: config.backoff_max_delay,
+        backoff_max_retries: config.backoff_max_retries,
+      },
+      dialer,
+      handshaker,
+    )?;
+
+    Ok(Self { client })
+  }
+
   /// Retrieves the current session information negotiated with the modulator server.
   ///
   /// This method provides access to the core session parameters that were established
